@@ -9,6 +9,56 @@ RLE = "parquet/src/encodings/rle.rs"
 BU = "parquet/src/util/bit_util.rs"
 ENC = "parquet/src/encodings/encoding/mod.rs"
 DEC = "parquet/src/encodings/decoding.rs"
+
+import re as _re
+def _shape(text):
+    """whitespace-tolerant regex for a source fragment, with an empty capture group: the item is
+    LOST (and `source_shapes_present` fails) as soon as the fragment is edited"""
+    return r"\s*".join(_re.escape(t) for t in text.split()) + "()"
+LV = "parquet/src/arrow/arrow_writer/levels.rs"
+SHAPES = [
+    # RleEncoder control flow
+    ("SH_RLE_PUT_SKIP", RLE, "if self.repeat_count > BIT_PACK_GROUP_SIZE { // A continuation of last value. No need to buffer. return; }"),
+    ("SH_RLE_PUT_FLUSH", RLE, "if self.repeat_count >= BIT_PACK_GROUP_SIZE { // The current RLE run has ended and we've gathered enough. Flush first."),
+    ("SH_RLE_PUT_RESET", RLE, "self.repeat_count = 1; self.current_value = value; }"),
+    ("SH_RLE_GROUP_FULL", RLE, "if self.num_buffered_values == BIT_PACK_GROUP_SIZE {"),
+    ("SH_RLE_FBV_GUARD", RLE, "fn flush_buffered_values(&mut self) { if self.repeat_count >= BIT_PACK_GROUP_SIZE {"),
+    ("SH_RLE_FBV_CLOSE", RLE, "if self.bit_packed_count > 0 {"),
+    ("SH_RLE_MAX_GROUPS", RLE, "if num_groups + 1 >= MAX_GROUPS_PER_BIT_PACKED_RUN {"),
+    ("SH_RLE_FLUSH_ALLREP", RLE, "let all_repeat = self.bit_packed_count == 0 && (self.repeat_count == self.num_buffered_values || self.num_buffered_values == 0); if self.repeat_count > 0 && all_repeat {"),
+    ("SH_RLE_FLUSH_PAD", RLE, "while self.num_buffered_values < BIT_PACK_GROUP_SIZE { self.buffered_values[self.num_buffered_values] = 0;"),
+    ("SH_RLE_VALUE_WIDTH", RLE, "bit_util::ceil(self.bit_width as usize, u8::BITS as usize),"),
+    ("SH_RLE_DEC_ZERO", RLE, "if indicator_value == 0 { return Ok(false); }"),
+    ("SH_RLE_DEC_ORDER", RLE, "if self.rle_left > 0 { let num_values = cmp::min(buffer.len() - values_read, self.rle_left as usize);"),
+    # BitWriter / BitReader
+    ("SH_BW_PUT", BU, "self.buffered_values |= v << self.bit_offset; self.bit_offset += num_bits; if let Some(remaining) = self.bit_offset.checked_sub(64) {"),
+    ("SH_BW_CARRY", BU, ".checked_shr((num_bits - self.bit_offset) as u32) .unwrap_or(0);"),
+    ("SH_BR_GET", BU, "trailing_bits(self.buffered_values, self.bit_offset + num_bits) >> self.bit_offset;"),
+    ("SH_BR_BOUND", BU, "if self.byte_offset * 8 + self.bit_offset + num_bits > self.buffer.len() * 8 { return None; }"),
+    # LevelInfoBuilder level arithmetic and run handling
+    ("SH_LV_LIST_DEF", LV, "true => parent_ctx.def_level + 2, false => parent_ctx.def_level + 1, };"),
+    ("SH_LV_STRUCT_DEF", LV, "true => parent_ctx.def_level + 1, false => parent_ctx.def_level, };"),
+    ("SH_LV_LIST_REP", LV, "rep_level: parent_ctx.rep_level + 1, def_level,"),
+    ("SH_LV_START_REP", LV, "let list_start_rep = ctx.rep_level - 1;"),
+    ("SH_LV_NULLS", LV, "leaf.append_rep_level_run(list_start_rep, count); leaf.append_def_level_run(ctx.def_level - 2, count);"),
+    ("SH_LV_EMPTIES", LV, "leaf.append_rep_level_run(list_start_rep, count); leaf.append_def_level_run(ctx.def_level - 1, count);"),
+    ("SH_LV_CLASSIFY", LV, "if !$nulls.is_valid($i + null_offset) { SlotKind::Null } else if offsets[$i] == offsets[$i + 1] { SlotKind::Empty } else { SlotKind::NonEmpty }"),
+    ("SH_LV_STAMP", LV, "let pos = batch_base + (slot_offset.as_usize() - values_start); rep_levels[pos] = list_start_rep;"),
+    ("SH_LV_CHILD_RANGE", LV, "let values_start = run_offsets[0].as_usize(); let values_end = run_offsets[run_offsets.len() - 1].as_usize();"),
+    ("SH_LV_STRUCT_NULL", LV, "info.extend_uniform_levels(ctx.def_level - 1, ctx.rep_level, len);"),
+    ("SH_LV_LEAF_ALLNULL", LV, "&& nulls.null_count() == nulls.len() { info.extend_uniform_levels(info.max_def_level - 1, info.max_rep_level, len); return; }"),
+    ("SH_LV_LEAF_DEF", LV, "max_def_level - (!valid as i16)"),
+    ("SH_LV_LEAF_BULK_SET", LV, "buf.resize(base + len, null_def_level); for i in range_nulls.valid_indices() { buf[base + i] = max_def_level; }"),
+    ("SH_LV_LEAF_MAXDEF", LV, "let max_def_level = match is_nullable { true => ctx.def_level + 1, false => ctx.def_level, };"),
+    # DELTA_BINARY_PACKED
+    ("SH_DL_SUB32", ENC, "Type::INT32 => (left as i32).wrapping_sub(right as i32) as u32 as u64,"),
+    ("SH_DL_WIDTH", ENC, "let bit_width = num_required_bits(self.subtract_u64(max_delta, min_delta)) as usize;"),
+    ("SH_DL_DELTA", ENC, "self.deltas[self.values_in_block] = self.subtract(value, self.current_value); self.current_value = value;"),
+    ("SH_DL_MIN", ENC, "min_delta = cmp::min(min_delta, self.deltas[i]);"),
+    ("SH_DL_PACKED", ENC, "self.subtract_u64(self.deltas[i * self.mini_block_size + j], min_delta); self.bit_writer.put_value(packed_value, bit_width);"),
+    ("SH_DL_DEC_ADD", DEC, ".wrapping_add(&self.min_delta) .wrapping_add(&self.last_value); self.last_value = *v;"),
+    ("SH_DBA_PREFIX", ENC, "let match_len = common_prefix_length(&self.previous, current); prefix_lengths.push(match_len as i32); suffixes.push(byte_array.slice(match_len, byte_array.len() - match_len));"),
+]
 CONSTANTS = {
     "C05": [
         # --- RLE / bit-packing hybrid
@@ -44,6 +94,6 @@ CONSTANTS = {
         # (empty capture group: the item is "lost" when the expression is no longer in the source)
         ("LEAF_BULK_REBASE", "parquet/src/arrow/arrow_writer/levels.rs", r"\.extend\(range_nulls\.valid_indices\(\)\.map\(\|i\|\s*i\s*\+\s*range\.start\)\)()", "intlist"),
         ("LEAF_ITER_REBASE", "parquet/src/arrow/arrow_writer/levels.rs", r"BitIndexIterator::new\(bits\.inner\(\),\s*bits\.offset\(\)\s*\+\s*range\.start,\s*len\)\s*\.map\(\|i\|\s*i\s*\+\s*range\.start\)()", "intlist"),
-    ],
+    ] + [(n, f, _shape(t), "intlist") for (n, f, t) in SHAPES],
 }
 FUNCTIONS = {}
